@@ -76,6 +76,9 @@ TEXTS = {
     "k-unsaved": "// edited, never saved\n" * 30 + "let zz = 1;\n",
     "uses-k-test": 'let k = import "./k_test.ucg";\nlet y = k.kk + 1;\n',
     "string-with-line-break": 'let s = "one\ntwo\nthree";\nlet e = "a\\n\\n\\nb";\n',
+    # ghost.ucg is never on disk: it exists only while an editor has it open
+    "ghost-text": "let x = 1;\n",
+    "uses-ghost": 'let g = import "./ghost.ucg";\nlet y = g.x + "s";\n',
 }
 for _n, _t in list(DISK.items()):
     if _n not in ("a.ucg", "lib.ucg", "big.ucg", "k_test.ucg"):
@@ -199,14 +202,30 @@ def run_trace(trace, with_requests=True):
     return viol
 
 
-def shrink_trace(trace, kind):
+def unsaved_other(trace, bad_doc):
+    """was another document open with a text that differs from the file on disk at the moment bad_doc was last analysed?"""
+    model = {}
+    res = False
+    for st in trace:
+        if st[0] == "close":
+            model.pop(st[1], None)
+        else:
+            model[st[1]] = st[2]
+            if st[1] == bad_doc:
+                res = any(d_ != bad_doc and TEXTS[t_] != DISK.get(d_) for d_, t_ in model.items())
+    return res
+
+
+def shrink_trace(trace, kind, bad_doc=None):
+    """drop messages while the same kind of violation remains and (for history-dependent diagnostics) remains one that the
+    unsaved buffer of another open document does not explain"""
     cur = list(trace)
     changed = True
     while changed and len(cur) > 1:
         changed = False
         for i in range(len(cur)):
             cand = cur[:i] + cur[i + 1:]
-            if any(v[0] == kind for v in run_trace(cand)):
+            if any(v[0] == kind and (bad_doc is None or (v[1].get("doc") == bad_doc and not unsaved_other(cand, bad_doc))) for v in run_trace(cand)):
                 cur = cand
                 changed = True
                 break
@@ -221,7 +240,7 @@ def abstract_trace(trace, detail):
         if st[0] == "close":
             parts.append("close(%s)" % who)
         else:
-            same_as_disk = TEXTS[st[2]] == DISK[st[1]]
+            same_as_disk = TEXTS[st[2]] == DISK.get(st[1])
             parts.append("%s(%s,%s)" % (st[0], who, "disk-text" if same_as_disk else st[2]))
     return " ".join(parts)
 
@@ -558,6 +577,13 @@ def run(ctx):
                   [("open", "k_test.ucg", "k-unsaved")], []):
         traces.append(first + [("open", "a.ucg", "uses-k-test")])
         traces.append(first + [("open", "a.ucg", "uses-k-test"), ("change", "a.ucg", "uses-k-test")])
+    # a document that is not on disk (a new, unsaved buffer) is opened and closed again: nothing of it may be left for
+    # a document that names it in an import (added after a sixth-round remark about the unchanged tree)
+    for first in ([("open", "ghost.ucg", "ghost-text"), ("close", "ghost.ucg")], [("open", "ghost.ucg", "ghost-text"), ("change", "ghost.ucg", "ghost-text"), ("close", "ghost.ucg")],
+                  [("open", "ghost.ucg", "ghost-text"), ("close", "ghost.ucg"), ("close", "ghost.ucg")], []):
+        traces.append(first + [("open", "a.ucg", "uses-ghost")])
+        traces.append(first + [("open", "a.ucg", "uses-ghost"), ("change", "a.ucg", "uses-ghost")])
+        traces.append([("open", "a.ucg", "uses-ghost")] + first + [("change", "a.ucg", "uses-ghost")])
     for a, b, c in TRIANGLES:
         for first in (b, c):
             for kind in ("open", "change"):
@@ -600,7 +626,7 @@ def run(ctx):
             states.add(json.dumps(sorted(model.items())))
     # (the files of the sub-directory triangles are there for the traces; as texts for the request sweeps they are the
     # import-field-chain text over again)
-    for part in core.pmap(work_requests, [t for t in TEXTS if not (t.startswith("disk:") and "/" in t)], chunk=1):
+    for part in core.pmap(work_requests, [t for t in TEXTS if not (t.startswith("disk:") and "/" in t) and t not in ("ghost-text", "uses-ghost")], chunk=1):
         ctx.count(part["evals"], part["evals"])
         for k, v in part["hist"].items():
             ctx.outcome(k, v)
@@ -627,22 +653,13 @@ def run(ctx):
             # abstract: is another document open with a text that differs from the file on disk at
             # the moment the failing document was last analysed?
             bad_doc = det["doc"]
-            model = {}
-            unsaved_other = False
-            for st in trace:
-                if st[0] == "close":
-                    model.pop(st[1], None)
-                else:
-                    model[st[1]] = st[2]
-                    if st[1] == bad_doc:
-                        unsaved_other = any(d_ != bad_doc and TEXTS[t_] != DISK[d_] for d_, t_ in model.items())
-            if unsaved_other:
+            if unsaved_other(trace, bad_doc):
                 sig = "%s:another-document-had-an-unsaved-buffer-when-%s-was-analysed" % (kind, "the-importer" if bad_doc == "a.ucg" else "the-library")
             else:
                 t = trace
                 if budget > 0 and len(trace) > 1:
                     budget -= 1
-                    t = shrink_trace(trace, kind)
+                    t = shrink_trace(trace, kind, bad_doc)
                 sig = "%s: %s" % (kind, abstract_trace(t, det))
         elif "token_text" in det:
             first = det["token_text"].split("\n")[-1].split(" ")
